@@ -157,7 +157,7 @@ def check(R, F, P, cfg):
     R.doc("R8.3", "every cc_dealloc is dominated by drop_metadata on the same box (which clears `accessible` while Weaks exist)")
     k = 0
     for (f, bb, ci) in P.call_sites(lambda c: c["npath"] == "utils::cc_dealloc"):
-        rootf = P.fns[f.root] if f.kind == "closure" else f
+        rootf = site_root(P, f)
         Sx = Super(P, rootf, opaque=DO - {rootf.npath})
         for n in [x for x in Sx.calls_to("utils::cc_dealloc") if x.ctx.fn is f and x.bb == bb]:
             k += 1
